@@ -14,6 +14,7 @@ import (
 	"seehuhn.de/go/postscript/type1"
 	"seehuhn.de/go/sfnt"
 	"seehuhn.de/go/sfnt/cff"
+	"seehuhn.de/go/sfnt/cmap"
 	"seehuhn.de/go/sfnt/glyph"
 	"seehuhn.de/go/sfnt/header"
 	"seehuhn.de/go/sfnt/internal/debug"
@@ -212,7 +213,113 @@ func makeSeeds() seedSet {
 	add("classdef.Read", cd1.Append(nil))
 	add("classdef.Read", cd2.Append(nil))
 	add("coverage.ReadSet", coverage.Set{1: true, 2: true, 9: true}.ToTable().Encode())
+
+	// cmap tables holding every subtable format the library decodes (0, 4, 6,
+	// 12), under Unicode, Windows and Macintosh keys: the subtable decoders run
+	// when useCmap asks for each key
+	for _, t := range cmapSeedTables() {
+		add("cmap.Decode", t)
+	}
+	// simple CFF fonts with a built-in encoding of each format (0, 1, with and
+	// without supplement)
+	for v := 0; v < 4; v++ {
+		if b := cffEncodingFontBytes(v); b != nil {
+			add("cff.Read", b)
+		}
+	}
 	return s
+}
+
+func cmapSeedTables() [][]byte {
+	var out [][]byte
+	f0 := &cmap.Format0{}
+	for c := 32; c < 256; c++ {
+		f0.Data[c] = byte(c - 31)
+	}
+	f4 := cmap.Format4{}
+	for c := 0x20; c < 0x7F; c++ {
+		f4[uint16(c)] = glyph.ID(c - 0x1F)
+	}
+	f4[0x2026] = 300
+	f4[0xFFFD] = 301
+	f12 := cmap.Format12{}
+	for c := 0x20; c < 0x7F; c++ {
+		f12[uint32(c)] = glyph.ID(c - 0x1F)
+	}
+	for c := 0x1F600; c < 0x1F650; c++ {
+		f12[uint32(c)] = glyph.ID(400 + c - 0x1F600)
+	}
+	f12[0x10FFFF] = 7
+	// format 6 (the library has no encoder for it): firstCode 0x41, 5 entries
+	f6 := []byte{0, 6, 0, 20, 0, 0, 0, 0x41, 0, 5, 0, 1, 0, 2, 0, 0, 0, 4, 0, 5}
+	out = append(out,
+		cmap.Table{{PlatformID: 3, EncodingID: 10}: f12.Encode(0), {PlatformID: 3, EncodingID: 1}: f4.Encode(0)}.Encode(),
+		cmap.Table{{PlatformID: 0, EncodingID: 4}: f12.Encode(0)}.Encode(),
+		cmap.Table{{PlatformID: 1, EncodingID: 0}: f0.Encode(0), {PlatformID: 3, EncodingID: 1}: f4.Encode(0)}.Encode(),
+		cmap.Table{{PlatformID: 1, EncodingID: 0}: f6, {PlatformID: 0, EncodingID: 3}: f6, {PlatformID: 3, EncodingID: 0}: f4.Encode(0)}.Encode(),
+		cmap.Table{{PlatformID: 1, EncodingID: 0, Language: 2}: f4.Encode(2), {PlatformID: 1, EncodingID: 0}: f0.Encode(0), {PlatformID: 0, EncodingID: 6}: f12.Encode(0)}.Encode(),
+	)
+	return out
+}
+
+// cffEncodingFontBytes writes a simple CFF font whose built-in encoding needs
+// format 0 (scattered codes), format 1 (runs of codes), each also with a glyph
+// that has two codes (a supplement).
+func cffEncodingFontBytes(variant int) (out []byte) {
+	defer func() {
+		if recover() != nil {
+			out = nil
+		}
+	}()
+	const n = 40
+	o := &cff.Outlines{}
+	for i := 0; i < n; i++ {
+		name := ".notdef"
+		if i > 0 {
+			name = "g" + string(rune('A'+i%26)) + string(rune('a'+i/26))
+		}
+		g := cff.NewGlyph(name, float64(500+i))
+		g.MoveTo(0, 0)
+		g.LineTo(float64(100+i), 0)
+		g.LineTo(float64(100+i), 300)
+		o.Glyphs = append(o.Glyphs, g)
+	}
+	o.Private = []*type1.PrivateDict{{BlueScale: 0.039625, BlueShift: 7, BlueFuzz: 1}}
+	o.FDSelect = func(glyph.ID) int { return 0 }
+	enc := make([]glyph.ID, 256)
+	for g := 1; g < n; g++ {
+		var code int
+		if variant%2 == 0 {
+			code = (g*37 + 11) % 251 // scattered: format 0
+			for enc[code] != 0 {
+				code = (code + 1) % 256
+			}
+		} else {
+			code = 40 + g // long runs: format 1
+			if g > 20 {
+				code = 100 + g
+			}
+		}
+		enc[code] = glyph.ID(g)
+	}
+	if variant >= 2 {
+		for c := 255; c > 0; c-- {
+			if enc[c] == 0 {
+				enc[c] = 5 // glyph 5 gets a second code
+				break
+			}
+		}
+		if enc[1] == 0 {
+			enc[1] = 9
+		}
+	}
+	o.Encoding = enc
+	f := &cff.Font{FontInfo: &type1.FontInfo{FontName: "VerifEnc", FontMatrix: [6]float64{0.001, 0, 0, 0.001, 0, 0}}, Outlines: o}
+	buf := &bytes.Buffer{}
+	if err := f.Write(buf); err != nil {
+		return nil
+	}
+	return buf.Bytes()
 }
 
 
